@@ -168,10 +168,13 @@ class Crate:
         self.closures = {}       # closure type string '{closure@...}' -> Func
         self.promoted = {}       # (owner def name, n) -> Func
         self.consts = {}         # def name -> Func
+        self.inline_consts = {}  # last segment -> (type, literal text)  e.g. 'const X: u64 = const 5_u64;'
         self._parse()
 
     def _parse(self):
         text = self.text
+        for m in re.finditer(r'^const ([\w:]+): ([^=\n]+) = const ([^\n]+);$', text, re.M):
+            self.inline_consts[m.group(1).split('::')[-1]] = (m.group(2).strip(), m.group(3).strip())
         # item headers start at column 0 with 'fn ', 'const ', 'static '
         heads = [(m.start(), m.group(1)) for m in re.finditer(r'^(fn|const|static(?: mut)?) ', text, re.M)]
         heads.append((len(text), None))
